@@ -246,8 +246,9 @@ class CoherentFeedForwardLoop:
         # Update circuit breaker
         if result.success and not result.blocked:
             self._record_success()
-        elif result.blocked:
-            # Blocks are intentional, not failures
+        elif result.action in ("BLOCKED", "SKIPPED"):
+            # Blocks are intentional, not failures (executor FAILURE and
+            # ERROR results are flagged blocked too, but they are failures)
             pass
         else:
             self._record_failure()
